@@ -601,3 +601,70 @@ theorem good_step (s : State) (g : Good s) (c : HCall) (hc : ConfinedOpen s c) :
     · exact good_of_fds s _ g rfl rfl rfl rfl rfl g.fds g.handles
 
 end Fbr.Host.Ref
+
+namespace Fbr.Host.Ref
+
+theorem good_creds (s : State) (g : Good s) (c : Creds) : Good { s with creds := c } :=
+  good_of_fds s _ g rfl rfl rfl rfl rfl g.fds g.handles
+
+theorem good_step' (s : State) (g : Good s) (c : HCall) (hc : ConfinedOpen s c) : Good (step s c).2 := by
+  unfold step
+  split
+  · exact good_step s g c hc
+  · exact good_creds _ (good_step s g c hc) _
+
+theorem step_nodes' (s : State) (c : HCall) : (step s c).2.nodes = (stepCore s c).2.nodes := by
+  unfold step; split <;> rfl
+
+/-- the sentinel set is a constant of the host: `Good` before and after a step speak of the same set -/
+theorem stepCore_sent (s : State) (c : HCall) : (stepCore s c).2.sent = s.sent := by
+  have hm : ∀ (st : State) (o : Obj) (f : Node → Node), (modNode st o f).sent = st.sent := modNode_sent
+  have hopen : ∀ (st : State) (o : Obj) (fl : Nat), (openObj st o fl).2.sent = st.sent := by
+    intro st o fl; unfold openObj; repeat' split
+    all_goals rfl
+  have htimes : ∀ (st : State) (o : Obj) (a b c d : Nat), (setTimes st o a b c d).2.sent = st.sent := by
+    intro st o a b c d; unfold setTimes; split <;> rfl
+  have hchmod : ∀ (st : State) (o : Obj) (m : Nat), (chmodObj st o m).2.sent = st.sent := by
+    intro st o m; unfold chmodObj; repeat' split
+    all_goals rfl
+  have hren : ∀ (st : State) (a b : Obj) (x y : Name) (c : Obj) (cn : Node) (t : Option Obj),
+      (renameApply st a b x y c cn t).sent = st.sent := by
+    intro st a b x y c cn t
+    unfold renameApply
+    cases t <;> dsimp only <;> split <;> simp [hm]
+  cases c <;> simp only [stepCore]
+  all_goals (repeat' split)
+  all_goals first | rfl | exact hopen _ _ _ | exact htimes _ _ _ _ _ _ | exact hchmod _ _ _ | exact hren _ _ _ _ _ _ _ _
+
+theorem step_sent (s : State) (c : HCall) : (step s c).2.sent = s.sent := by
+  unfold step; split
+  · exact stepCore_sent s c
+  · exact stepCore_sent s c
+
+variable {α : Type}
+
+/-- every call of the run is confined in the state in which it is issued -/
+def AllConfined (sent : Obj → Bool) (root : Obj) : Prog α → State → Prop
+  | .pure _, _ => True
+  | .call c k, s => ConfinedOpen s c ∧ (∀ d n fl m, c = .openat d n fl m → (has fl O_CREAT && has fl O_EXCL) = true ∨ has fl O_TRUNC = false) ∧
+      AllConfined sent root (k (step s c).1) (step s c).2
+
+/-- **Runs stay inside.**  A program whose calls are confined, run on the reference FS from a `Good`
+    state, ends in a `Good` state and has not changed any sentinel object. -/
+theorem run_good (sent : Obj → Bool) (root : Obj) (p : Prog α) (s : State) (g : Good s)
+    (h : AllConfined sent root p s) :
+    Good ((p.run (ops sent root) s).2.1) ∧ ∀ x, s.sent x = true → (p.run (ops sent root) s).2.1.nodes x = s.nodes x := by
+  induction p generalizing s with
+  | pure a => exact ⟨g, fun _ _ => rfl⟩
+  | call c k ih =>
+    obtain ⟨hc, ht, hrest⟩ := h
+    have g' := good_step' s g c hc
+    have := ih _ _ g' hrest
+    refine ⟨this.1, ?_⟩
+    intro x hx
+    have hx' : (step s c).2.sent x = true := by rw [step_sent]; exact hx
+    have e1 := this.2 x hx'
+    show ((k (step s c).1).run (ops sent root) (step s c).2).2.1.nodes x = s.nodes x
+    rw [e1, step_nodes', sentinel_untouched s g c ht x hx]
+
+end Fbr.Host.Ref
